@@ -30,6 +30,11 @@ CHECKS = {
    text="A node on write-logging databases follows a history of foreign blocks (zone block with Qi spend/transfers/contract creation, region-order block, prime-order block, two more zone blocks, three side-branch inserts and a depth-2 reorganisation). For EVERY prefix of the ~120-entry global write log the three databases are rebuilt, the real node is restarted on them and must open without error/panic, report a zone head whose header commitments equal a full scan of the stored ledger, complete the rest of the history starting with the interrupted block, and end with exactly the canonical projection of the node that never crashed.",
    note="Trusts: process-crash model (write order preserved, a committed batch is atomic); engine internals, torn writes inside a batch and power-loss reordering are not explored. The dom's production retry path for missing pending ETXs is modelled by retrying the insert (<=16 times).",
    design="2/C11"),
+ "C01": dict(
+   technique="exhaustive sequence enumeration of adversarial Qi transaction templates through the real ProcessQiTx on 4 storage backends in lock-step with a Go-map reference ledger; plus all mempool pairs through the real worker on a 3-level node",
+   text="Every sequence of <=2 (thorough 3) transactions from 19 adversarial templates (same outpoint twice in one tx, same outpoint in two txs of the block, spend of an output created earlier in the block, locked output, foreign owner, missing output, inflating outputs, wrong key, signature for another chain id, sender-cache path, MuSig2 two-owner spend, cross-zone ETX, conversion, address reuse) is executed as the Qi part of one block on leveldb, pebble, memorydb and the table wrapper: whenever the reference ledger demands refusal the implementation refuses, accepted transactions conserve value (in = local outputs + sent away + fee) with matching supply deltas, the UTXO prefix after batch.Write equals the reference ledger, and verdict vectors are identical across backends. All pairs of conflicting/dependent spends offered to the real mempool yield worker blocks that the node accepts, that never name an outpoint twice and whose commitments equal the stored ledger.",
+   note="Trusts: 3 keys, denominations from a small menu, block context (base fee, exchange rate, eligibility) of one real zone node in regime R1; block-level 'evil miner' bodies with recomputed state roots are not constructed (C07 covers body mutations, C06 cross-backend block histories).",
+   design="2/C01"),
 }
 
 NOT_YET = "check not built yet in this session (planned; see DESIGN.md section 2)"
